@@ -45,8 +45,21 @@ def noVoid (w : World) (x : WlX) : Bool :=
      else true
    | none => true) &&
   (match w.net.stableSel, w.wl with
-   | some r, some wl => r = wl.stableRev || decide (x.updated < wl.replicas)
+   | some r, some wl =>
+     -- the stable Service always receives traffic: the revision it is pinned to must have pods
+     if r = wl.canaryRev then decide (x.updated > 0) else decide (x.updated < wl.replicas)
    | _, _ => true)
+
+/-- **C01 / C08 (closed loop)** — no pod runs a revision the rollout has not taken up: while the workload's
+    update revision is neither the revision this rollout is releasing nor its stable one, no pod has
+    been moved to it. -/
+def supervised (w : World) (x : WlX) : Bool :=
+  match w.wl, w.ro.sub with
+  | some wl, some s =>
+    if wl.canaryRev ≠ s.canaryRev ∧ wl.canaryRev ≠ s.stableRev ∧ wl.canaryRev ≠ wl.stableRev ∧ ¬ w.ro.disabled ∧ ¬ w.ro.deleting then
+      decide (x.updated = 0)
+    else true
+  | _, _ => true
 
 /-- **C05.i** — a terminal rollout leaves nothing behind and everything as the user configured it. -/
 def terminalClean (exists_ : Bool) (w : World) (x : Option WlX) : Bool :=
